@@ -48,3 +48,6 @@ Definition t_no_context : str := [37; 85; 112; 112; 101; 114; 40; 41].
 Definition t_open_paren : str := [37; 78; 97; 109; 101; 40].
 (* x        - every file gets the same name *)
 Definition t_x : str := [120].
+(* %Base()|%Trim(2,right)|%Pad(5,'x',right)|%Upper()   - text tags with arguments, piped *)
+Definition t_trim_pad : str :=
+  [37; 66; 97; 115; 101; 40; 41; 124; 37; 84; 114; 105; 109; 40; 50; 44; 114; 105; 103; 104; 116; 41; 124; 37; 80; 97; 100; 40; 53; 44; 39; 120; 39; 44; 114; 105; 103; 104; 116; 41; 124; 37; 85; 112; 112; 101; 114; 40; 41].
